@@ -53,6 +53,8 @@ fn check_value(sig: &str, got: f64, f: &v1::Function, state: &v1::State, regime:
 }
 
 const HUGE: [usize; 2] = [33_000, 70_000];
+/// side of the dense quadratic of the last sweep case (side^2 entries: beyond 2^17)
+const DENSE_SIDE: u64 = 400;
 
 impl C01 {
     /// functions well beyond the usual handful of terms (20..80 raw terms over as many ids, non-zero constant):
@@ -166,7 +168,11 @@ impl C01 {
         let nterms = 1 + t.choice(3);
         let mut terms: Vec<(Vec<u64>, f64)> = vec![];
         for _ in 0..nterms {
-            let deg = 5 + t.choice(4);
+            // 5..8, now and then 16..24 (a monomial has no maximal degree)
+            let deg = if t.p(40) { 16 + t.choice(9) } else { 5 + t.choice(4) };
+            if deg >= 17 {
+                ctx.label("monomial-degree>=17");
+            }
             let m: Vec<u64> = (0..deg).map(|_| *t.pick(&ids)).collect();
             let mut sorted = m.clone();
             sorted.sort_unstable();
@@ -184,7 +190,7 @@ impl C01 {
         let mut state = v1::State::default();
         for id in &used {
             state.entries.insert(*id, match regime {
-                Regime::Dyadic => [1.0, -1.0, 0.5, 2.0, -0.5, 1.5, 0.0, -2.0][t.choice(8)],
+                Regime::Dyadic => [1.0, -1.0, 0.5, 2.0, -0.5, 1.0, 0.0, -2.0][t.choice(8)],
                 Regime::General => [1.1, -0.9, 0.3, 2.0, -1.7, 1e-3, 0.0, 3.0][t.choice(8)],
             });
         }
@@ -258,6 +264,8 @@ impl Property for C01 {
             "samples-typed",
             "mode=high-degree",
             "high-degree-monomial-with-scattered-repeats",
+            "monomial-degree>=17",
+            "sweep=dense-quadratic",
         ]
         .iter()
         .map(|s| s.to_string())
@@ -273,12 +281,56 @@ impl Property for C01 {
         448
     }
     fn sweep_len(&self, _tier: Tier) -> usize {
-        HUGE.len() * 3
+        HUGE.len() * 3 + 1
     }
     fn sweep_description(&self) -> Option<String> {
-        Some("functions over 33 000 and 70 000 distinct variables (beyond the 16-bit counts) as linear, quadratic and polynomial message, through evaluate and evaluate_samples (three samples)".into())
+        Some("functions over 33 000 and 70 000 distinct variables (beyond the 16-bit counts) as linear, quadratic and polynomial message, through evaluate and evaluate_samples (three samples); a dense quadratic form with 160 000 entries and linear-only variables".into())
     }
     fn sweep_case(&self, _tier: Tier, i: usize, ctx: &mut Ctx) -> PResult {
+        if i == HUGE.len() * 3 {
+            // a dense quadratic form with 160 000 entries plus a linear part on variables that do not occur in the
+            // quadratic part: value, id set (incl. the linear-only variables) and the missing-variable error
+            ctx.label("sweep=dense-quadratic");
+            ctx.nontrivial();
+            ctx.fp_dbg(&("dense-quadratic", DENSE_SIDE));
+            ctx.sample_with(|| json!({"sweep": "dense quadratic", "side": DENSE_SIDE, "entries": DENSE_SIDE * DENSE_SIDE}));
+            let mut q = v1::Quadratic::default();
+            for r in 0..DENSE_SIDE {
+                for c in 0..DENSE_SIDE {
+                    q.rows.push(r);
+                    q.columns.push(c);
+                    q.values.push(derived_coeff(7, r * DENSE_SIDE + c));
+                }
+            }
+            q.linear = Some(crate::mk::linear(vec![(100_000, 2.5), (3, -1.0), (200_000, 0.0)], 0.75));
+            let f = crate::mk::fquad(q);
+            let used = syntactic_ids(&f);
+            let mut st = v1::State::default();
+            for id in &used {
+                st.entries.insert(*id, derived_value(11, *id));
+            }
+            let (v, got_ids) = match f.evaluate(&st) {
+                Ok(x) => x,
+                Err(e) => return fail("C01/dense-quadratic/err", format!("evaluate failed on a total state: {e}")),
+            };
+            check_value("dense-quadratic", v, &f, &st, Regime::Dyadic, ctx).map_err(|mut e| {
+                e.message.truncate(400);
+                e
+            })?;
+            if got_ids != used {
+                let lost: Vec<u64> = used.difference(&got_ids).copied().take(5).collect();
+                let extra: Vec<u64> = got_ids.difference(&used).copied().take(5).collect();
+                return fail("C01/dense-quadratic/id-set", format!("returned id set has {} ids, the message mentions {} (lost {lost:?}, extra {extra:?})", got_ids.len(), used.len()));
+            }
+            for victim in [100_000u64, 200_000, 0, DENSE_SIDE - 1] {
+                let mut s2 = st.clone();
+                s2.entries.remove(&victim);
+                if f.evaluate(&s2).is_ok() {
+                    return fail("C01/dense-quadratic/missing-var-accepted", format!("evaluate succeeded although the state lacks id {victim}"));
+                }
+            }
+            return Ok(());
+        }
         let n = HUGE[i / 3] as u64;
         let variant = (i % 3) as u8;
         ctx.label("sweep=many-variables");
